@@ -1,10 +1,14 @@
 /-
   C12 helper lemmas, part 2: the separation invariant `Sep` and the footprint of one operation.
 
-  `Sep h`: every object only references objects of its own region.  Under `Sep` every operation of
+  `Sep h`: every object only references objects of its own region, and the shared regions hold plain
+  data (no opaque objects: what the yaml / toml loaders produce).  Under `Sep` every operation of
   the language of the code as it is now (`Op.fixed`) has a LOCAL effect: it allocates objects that
   reference run r's region only and writes (at most) one object of run r's region (`effect_local`).
   Consequences: `Sep` is preserved, and the arenas of all other regions are untouched.
+
+  States: an operation that has no effect raises and ends its run (`State.dead`); the heap is then
+  unchanged, so every statement about heaps carries over.
 -/
 import Props.Lemmas.C12_Basic
 
@@ -13,18 +17,21 @@ open Pypyr.RunHeap
 
 /-- Separation: every object references objects of its own region only. For `g = run r`: the
     objects of run r reference run r's objects only (no definition, config or other run's object
-    is reachable from run r's context); for a shared `g`: definitions / config are closed. -/
-def Sep (h : Heap) : Prop := ∀ g, ∀ c ∈ h.arena g, CellIn g c
+    is reachable from run r's context); for a shared `g`: definitions / config are closed, and they
+    are plain data: no opaque objects (which formatting would hand to a run by reference). -/
+structure Sep (h : Heap) : Prop where
+  closed : ∀ g, ∀ c ∈ h.arena g, CellIn g c
+  plain : ∀ g, g.isShared = true → ∀ c ∈ h.arena g, c.isObj = false
 
 theorem get?_mem {h : Heap} {x : Ref} {c : Cell} (hx : h.get? x = some c) : c ∈ h.arena x.reg :=
   List.mem_of_getElem? hx
 
 theorem Sep.get {h : Heap} (hS : Sep h) {x : Ref} {c : Cell} (hx : h.get? x = some c) :
-    CellIn x.reg c := hS _ _ (get?_mem hx)
+    CellIn x.reg c := hS.closed _ _ (get?_mem hx)
 
-/-- Following a path never leaves the region it started in. -/
-theorem resolve_reg {h : Heap} (hS : Sep h) {p : Path} {a x : Ref} (hr : resolve h a p = some x) :
-    x.reg = a.reg := by
+/-- Following a path never leaves the region it started in (only closedness is used). -/
+theorem resolve_reg_closed {h : Heap} (hC : ∀ g, ∀ c ∈ h.arena g, CellIn g c) {p : Path} {a x : Ref}
+    (hr : resolve h a p = some x) : x.reg = a.reg := by
   induction p generalizing a with
   | nil => simp only [resolve, Option.some.injEq] at hr; rw [hr]
   | cons s rest ih =>
@@ -37,7 +44,10 @@ theorem resolve_reg {h : Heap} (hS : Sep h) {p : Path} {a x : Ref} (hr : resolve
       | some b =>
         simp only [hc, hb] at hr
         rw [ih hr]
-        exact hS.get hc b (follow_mem hb)
+        exact hC _ _ (get?_mem hc) b (follow_mem hb)
+
+theorem resolve_reg {h : Heap} (hS : Sep h) {p : Path} {a x : Ref} (hr : resolve h a p = some x) :
+    x.reg = a.reg := resolve_reg_closed hS.closed hr
 
 /-- A schedule in the operation language of the code as it is now. -/
 def SchedFixed (s : Sched) : Prop := ∀ e ∈ s, e.2.fixed = true
@@ -51,6 +61,17 @@ theorem SchedFixed.tail {e : Nat × Op} {s : Sched} (h : SchedFixed (e :: s)) : 
 theorem SchedFixed.head {e : Nat × Op} {s : Sched} (h : SchedFixed (e :: s)) : e.2.fixed = true :=
   h e List.mem_cons_self
 
+theorem SchedFixed.append {s1 s2 : Sched} (h1 : SchedFixed s1) (h2 : SchedFixed s2) : SchedFixed (s1 ++ s2) := by
+  intro e he
+  rcases List.mem_append.1 he with h | h
+  · exact h1 e h
+  · exact h2 e h
+
+theorem schedFixed_solo {r : Nat} {ops : List Op} (h : ∀ o ∈ ops, o.fixed = true) : SchedFixed (solo r ops) := by
+  intro e he
+  obtain ⟨o, ho, rfl⟩ := List.mem_map.1 he
+  exact h o ho
+
 /-! ### the footprint of an effect -/
 
 /-- The effect allocates objects referencing run r only, and writes only to run r's region an
@@ -63,46 +84,44 @@ theorem shiftRef_reg {src dst : Region} {base : Nat} {x : Ref} (h : x.reg = src)
     shiftRef src dst base x = ⟨dst, base + x.idx⟩ := by simp [shiftRef, h]
 
 theorem shift_in {src dst : Region} {base : Nat} {c : Cell} (hc : CellIn src c) :
-    CellIn dst (Cell.shift src dst base c) := by
-  cases c with
-  | leaf v => exact cellIn_leaf _ _
-  | list rs =>
-    intro x hx
-    simp only [Cell.shift, Cell.refs, List.mem_map] at hx
-    obtain ⟨y, hy, rfl⟩ := hx
-    rw [shiftRef_reg (hc y hy)]
-  | dict kvs =>
-    intro x hx
-    simp only [Cell.shift, Cell.refs, List.mem_map] at hx
-    obtain ⟨kv', ⟨kv, hkv, rfl⟩, rfl⟩ := hx
-    rw [shiftRef_reg (hc kv.2 (List.mem_map.2 ⟨kv, hkv, rfl⟩))]
+    CellIn dst (Cell.shift src dst base c) :=
+  cellIn_mapRefs fun x hx => by rw [shiftRef_reg (hc x hx)]
 
-theorem copyArena_in {h : Heap} (hS : Sep h) (src dst : Region) (base : Nat) :
+theorem copyArena_in {h : Heap} (hC : ∀ c ∈ h.arena src, CellIn src c) (dst : Region) (base : Nat) :
     ∀ c ∈ copyArena h src dst base, CellIn dst c := by
   intro c hc
   simp only [copyArena, List.mem_map] at hc
   obtain ⟨c0, hc0, rfl⟩ := hc
-  exact shift_in (hS src c0 hc0)
+  exact shift_in (hC c0 hc0)
 
 theorem root_reg (r : Nat) : (root r).reg = .run r := rfl
 
-/-- A formatter that rebuilds every container (`keep = []`, the code as it is) makes a deep copy. -/
+/-- A formatter that rebuilds every object (`keep = []`) makes a deep copy. -/
 theorem shiftKeep_nil (src dst : Region) (base : Nat) (x : Ref) :
     shiftKeep [] src dst base x = shiftRef src dst base x := by
   simp [shiftKeep]
 
 theorem cell_shiftKeep_nil (src dst : Region) (base : Nat) (c : Cell) :
     Cell.shiftKeep [] src dst base c = Cell.shift src dst base c := by
-  cases c with
-  | leaf v => rfl
-  | list rs => simp [Cell.shiftKeep, Cell.shift, shiftKeep_nil]
-  | dict kvs => simp [Cell.shiftKeep, Cell.shift, shiftKeep_nil]
+  have : RunHeap.shiftKeep [] src dst base = shiftRef src dst base := funext (shiftKeep_nil src dst base)
+  simp only [Cell.shiftKeep, Cell.shift, this]
 
 theorem fmtArena_nil (h : Heap) (src dst : Region) (base : Nat) :
     fmtArena h [] src dst base = copyArena h src dst base := by
   simp [fmtArena, copyArena, cell_shiftKeep_nil]
 
 theorem keep_nil {keep : List Nat} (h : keep.isEmpty = true) : keep = [] := List.isEmpty_iff.1 h
+
+/-- An arena without opaque objects: the formatter as it is hands nothing back by reference. -/
+theorem objIdxFrom_nil {a : Arena} (ha : ∀ c ∈ a, c.isObj = false) (i : Nat) : objIdxFrom i a = [] := by
+  induction a generalizing i with
+  | nil => rfl
+  | cons c rest ih =>
+    simp only [objIdxFrom, ha c List.mem_cons_self, Bool.false_eq_true, if_false]
+    exact ih (fun c' hc' => ha c' (List.mem_cons_of_mem _ hc')) _
+
+theorem objIdx_shared {h : Heap} (hS : Sep h) {g : Region} (hg : g.isShared = true) : objIdx h g = [] :=
+  objIdxFrom_nil (hS.plain g hg) 0
 
 theorem updateCopy_local {h : Heap} (hS : Sep h) {r : Nat} {src : Ref} {e : Effect}
     (he : updateCopy h r src = some e) : Local r e := by
@@ -112,7 +131,7 @@ theorem updateCopy_local {h : Heap} (hS : Sep h) {r : Nat} {src : Ref} {e : Effe
     · rename_i kvs skvs hroot hsrc
       simp only [Option.some.injEq] at he
       subst he
-      refine ⟨copyArena_in hS _ _ _, ?_⟩
+      refine ⟨copyArena_in (hS.closed _) _ _, ?_⟩
       intro x c hw
       simp only [Option.some.injEq, Prod.mk.injEq] at hw
       obtain ⟨rfl, rfl⟩ := hw
@@ -167,6 +186,30 @@ theorem dictSetEffect_local {h : Heap} (hS : Sep h) {r : Nat} {p : Path} {k : St
         rw [← hxr]; exact cellIn_dict.1 (hS.get hc)
       · cases he
 
+/-- Binding a formatted copy of an object of a closed region without opaque objects, all containers
+    rebuilt: a deep copy into the run. -/
+theorem fmtBind_local {h : Heap} (hS : Sep h) {r : Nat} {p : Path} {k : String} {g : Region} {y : Ref}
+    (hno : objIdx h g = []) (hy : y.reg = g) {e : Effect} (he : fmtBind h r p k g y [] = some e) :
+    Local r e := by
+  unfold fmtBind at he
+  simp only [hno, List.append_nil, fmtArena_nil, shiftKeep_nil] at he
+  split at he
+  · cases he
+  · rename_i x hx
+    split at he
+    · rename_i kvs hc
+      simp only [Option.some.injEq] at he
+      subst he
+      have hxr : x.reg = .run r := resolve_reg hS hx
+      refine ⟨copyArena_in (hS.closed _) _ _, ?_⟩
+      intro z c hw
+      simp only [Option.some.injEq, Prod.mk.injEq] at hw
+      obtain ⟨rfl, rfl⟩ := hw
+      refine ⟨hxr, cellIn_dict.2 (kvSet_all (P := fun x => x.reg = .run r) ?_ ?_)⟩
+      · rw [← hxr]; exact cellIn_dict.1 (hS.get hc)
+      · rw [shiftRef_reg hy]
+    · cases he
+
 /-- Under `Sep`, every operation of the repaired code has a local effect. -/
 theorem effect_local {h : Heap} (hS : Sep h) {r : Nat} {op : Op} (hf : op.fixed = true) {e : Effect}
     (he : effect h r op = some e) : Local r e := by
@@ -187,7 +230,7 @@ theorem effect_local {h : Heap} (hS : Sep h) {r : Nat} {op : Op} (hf : op.fixed 
       · rename_i kvs hroot
         simp only [Option.some.injEq] at he
         subst he
-        refine ⟨copyArena_in hS _ _ _, ?_⟩
+        refine ⟨copyArena_in (hS.closed _) _ _, ?_⟩
         intro x c hw
         simp only [Option.some.injEq, Prod.mk.injEq] at hw
         obtain ⟨rfl, rfl⟩ := hw
@@ -218,13 +261,45 @@ theorem effect_local {h : Heap} (hS : Sep h) {r : Nat} {op : Op} (hf : op.fixed 
     simp only [effect] at he
     split at he
     · cases he
-    · split at he
-      · split at he
+    · rename_i x hx
+      split at he
+      · rename_i rs hc
+        have hxr : x.reg = .run r := resolve_reg hS hx
+        split at he
         · simp only [Option.some.injEq] at he
           subst he
           exact ⟨(fun c hc => nomatch hc), (fun x c hw => nomatch hw)⟩
-        · exact extendEffect_local hS he
+        · simp only [Option.some.injEq] at he
+          subst he
+          refine ⟨(relocAll_in _ _ _).1, ?_⟩
+          intro y c hw
+          simp only [Option.some.injEq, Prod.mk.injEq] at hw
+          obtain ⟨rfl, rfl⟩ := hw
+          refine ⟨hxr, cellIn_set.2 ?_⟩
+          intro z hz
+          rcases List.mem_append.1 hz with hz | hz
+          · rw [← hxr]; exact hS.get hc z hz
+          · exact (relocAll_in _ _ _).2 z hz
       · cases he
+  | attrSetAt p k v =>
+    simp only [effect] at he
+    split at he
+    · cases he
+    · split at he
+      · cases he
+      · rename_i x hx
+        split at he
+        · rename_i cls attrs hc
+          simp only [Option.some.injEq] at he
+          subst he
+          have hxr : x.reg = .run r := resolve_reg hS hx
+          refine ⟨relocate_in _ _ _, ?_⟩
+          intro y c hw
+          simp only [Option.some.injEq, Prod.mk.injEq] at hw
+          obtain ⟨rfl, rfl⟩ := hw
+          refine ⟨hxr, cellIn_obj.2 (kvSet_all (P := fun x => x.reg = .run r) ?_ rfl)⟩
+          rw [← hxr]; exact cellIn_obj.1 (hS.get hc)
+        · cases he
   | copyKey src dst =>
     simp only [effect] at he
     split at he
@@ -245,25 +320,13 @@ theorem effect_local {h : Heap} (hS : Sep h) {r : Nat} {op : Op} (hf : op.fixed 
   | fmtSetAt p k src keep =>
     have hk : keep = [] := keep_nil (by simpa only [Op.fixed] using hf)
     subst hk
-    simp only [effect, fmtArena_nil, shiftKeep_nil] at he
+    simp only [effect] at he
     split at he
-    · split at he
-      · cases he
-      · rename_i x hx
-        split at he
-        · rename_i kvs hc
-          simp only [Option.some.injEq] at he
-          subst he
-          have hxr : x.reg = .run r := resolve_reg hS hx
-          refine ⟨copyArena_in hS _ _ _, ?_⟩
-          intro y c hw
-          simp only [Option.some.injEq, Prod.mk.injEq] at hw
-          obtain ⟨rfl, rfl⟩ := hw
-          refine ⟨hxr, cellIn_dict.2 (kvSet_all (P := fun x => x.reg = .run r) ?_ ?_)⟩
-          · rw [← hxr]; exact cellIn_dict.1 (hS.get hc)
-          · rw [shiftRef_reg rfl]
-        · cases he
+    · rename_i hg
+      exact fmtBind_local hS (objIdx_shared hS hg) rfl he
     · cases he
+  | fmtFrom src sp p k byRef => cases hf
+  | fail => cases he
 
 /-! ### applying a local effect -/
 
@@ -293,73 +356,126 @@ theorem apply_arena_own {h : Heap} {r : Nat} {e : Effect} (hL : Local r e) :
     have hx := (hL.write x c hw).1
     simp [Heap.alloc, Heap.set, hx]
 
-theorem apply_sep {h : Heap} (hS : Sep h) {r : Nat} {e : Effect} (hL : Local r e) :
-    Sep (apply h r e) := by
-  intro g c hc
-  by_cases hg : g = .run r
-  · subst hg
-    rw [apply_arena_own hL] at hc
-    unfold ownAfter at hc
-    have happ : ∀ c ∈ h.arena (.run r) ++ e.allocs, CellIn (.run r) c := by
-      intro c hc
-      rcases List.mem_append.1 hc with h1 | h1
-      · exact hS _ c h1
-      · exact hL.allocs c h1
-    cases hw : e.write with
-    | none => rw [hw] at hc; exact happ c hc
-    | some xc =>
-      obtain ⟨x, c'⟩ := xc
-      rw [hw] at hc
-      rcases List.mem_or_eq_of_mem_set hc with h1 | h1
-      · exact happ c h1
-      · rw [h1]; exact (hL.write x c' hw).2
-  · rw [apply_arena_other hL hg] at hc
-    exact hS g c hc
-
-/-! ### one operation, a whole schedule -/
-
-theorem step_sep {h : Heap} (hS : Sep h) (r : Nat) {op : Op} (hf : op.fixed = true) :
-    Sep (step h r op) := by
-  unfold step
-  cases he : effect h r op with
-  | none => exact hS
-  | some e => exact apply_sep hS (effect_local hS hf he)
-
-/-- An operation of run r leaves every other region's arena exactly as it was. -/
-theorem step_arena_other {h : Heap} (hS : Sep h) (r : Nat) {op : Op} (hf : op.fixed = true)
-    {g : Region} (hg : g ≠ .run r) : (step h r op).arena g = h.arena g := by
-  unfold step
-  cases he : effect h r op with
-  | none => rfl
-  | some e => exact apply_arena_other (effect_local hS hf he) hg
-
 theorem shared_ne_run {g : Region} (hg : g.isShared = true) (r : Nat) : g ≠ .run r := by
   intro e; rw [e] at hg; simp [Region.isShared] at hg
 
-theorem exec_sep {s : Sched} (hs : SchedFixed s) {h : Heap} (hS : Sep h) : Sep (exec s h) := by
-  induction s generalizing h with
+theorem apply_sep {h : Heap} (hS : Sep h) {r : Nat} {e : Effect} (hL : Local r e) :
+    Sep (apply h r e) := by
+  refine ⟨?_, ?_⟩
+  · intro g c hc
+    by_cases hg : g = .run r
+    · subst hg
+      rw [apply_arena_own hL] at hc
+      unfold ownAfter at hc
+      have happ : ∀ c ∈ h.arena (.run r) ++ e.allocs, CellIn (.run r) c := by
+        intro c hc
+        rcases List.mem_append.1 hc with h1 | h1
+        · exact hS.closed _ c h1
+        · exact hL.allocs c h1
+      cases hw : e.write with
+      | none => rw [hw] at hc; exact happ c hc
+      | some xc =>
+        obtain ⟨x, c'⟩ := xc
+        rw [hw] at hc
+        rcases List.mem_or_eq_of_mem_set hc with h1 | h1
+        · exact happ c h1
+        · rw [h1]; exact (hL.write x c' hw).2
+    · rw [apply_arena_other hL hg] at hc
+      exact hS.closed g c hc
+  · intro g hg c hc
+    rw [apply_arena_other hL (shared_ne_run hg r)] at hc
+    exact hS.plain g hg c hc
+
+/-! ### one operation, a whole schedule -/
+
+/-- What one operation does to a state: nothing to the heap (the run is over, or the operation
+    raises), or it applies its effect. -/
+theorem step_cases (st : State) (r : Nat) (op : Op) :
+    (step st r op).heap = st.heap ∨
+      ∃ e, effect st.heap r op = some e ∧ step st r op = ⟨apply st.heap r e, st.dead⟩ := by
+  unfold step
+  split
+  · exact Or.inl rfl
+  · cases he : effect st.heap r op with
+    | none => exact Or.inl rfl
+    | some e => exact Or.inr ⟨e, rfl, rfl⟩
+
+theorem step_sep {st : State} (hS : Sep st.heap) (r : Nat) {op : Op} (hf : op.fixed = true) :
+    Sep (step st r op).heap := by
+  rcases step_cases st r op with h | ⟨e, he, h⟩
+  · rw [h]; exact hS
+  · rw [h]; exact apply_sep hS (effect_local hS hf he)
+
+/-- An operation of run r leaves every other region's arena exactly as it was. -/
+theorem step_arena_other {st : State} (hS : Sep st.heap) (r : Nat) {op : Op} (hf : op.fixed = true)
+    {g : Region} (hg : g ≠ .run r) : (step st r op).heap.arena g = st.heap.arena g := by
+  rcases step_cases st r op with h | ⟨e, he, h⟩
+  · rw [h]
+  · rw [h]; exact apply_arena_other (effect_local hS hf he) hg
+
+/-- …and whether any OTHER run is over. -/
+theorem step_dead_other (st : State) {r r' : Nat} (op : Op) (hr : r' ≠ r) :
+    (step st r op).dead r' = st.dead r' := by
+  unfold step
+  split
+  · rfl
+  · cases effect st.heap r op with
+    | none => simp [kill, hr]
+    | some e => rfl
+
+theorem exec_sep {s : Sched} (hs : SchedFixed s) {st : State} (hS : Sep st.heap) : Sep (exec s st).heap := by
+  induction s generalizing st with
   | nil => exact hS
   | cons e rest ih => exact ih hs.tail (step_sep hS e.1 hs.head)
 
-theorem exec_arena_shared {s : Sched} (hs : SchedFixed s) {h : Heap} (hS : Sep h) {g : Region}
-    (hg : g.isShared = true) : (exec s h).arena g = h.arena g := by
-  induction s generalizing h with
+theorem exec_arena_shared {s : Sched} (hs : SchedFixed s) {st : State} (hS : Sep st.heap) {g : Region}
+    (hg : g.isShared = true) : (exec s st).heap.arena g = st.heap.arena g := by
+  induction s generalizing st with
   | nil => rfl
   | cons e rest ih =>
     simp only [exec]
     rw [ih hs.tail (step_sep hS e.1 hs.head), step_arena_other hS e.1 hs.head (shared_ne_run hg e.1)]
 
+theorem exec_append (s1 s2 : Sched) (st : State) : exec (s1 ++ s2) st = exec s2 (exec s1 st) := by
+  induction s1 generalizing st with
+  | nil => rfl
+  | cons e rest ih => exact ih _
+
 /-! ### the initial heap -/
 
-theorem init_sep (defs : List Block) (cfg : Block) : Sep (Heap.init defs cfg) := by
-  intro g c hc
-  cases g with
-  | defn p =>
-    simp only [Heap.init] at hc
-    split at hc
-    · exact relocate_in _ _ _ c hc
-    · cases hc
-  | config => exact relocate_in _ _ _ c hc
-  | run r => cases hc
+theorem isObj_relocate {b : Block} (hb : ∀ c ∈ b, c.isObj = false) (g : Region) (base : Nat) :
+    ∀ c ∈ Block.relocate b g base, c.isObj = false := by
+  intro c hc
+  simp only [Block.relocate, List.mem_map] at hc
+  obtain ⟨bc, hbc, rfl⟩ := hc
+  rw [isObj_toCell]; exact hb bc hbc
+
+/-- Plain data: a block without opaque objects (what a yaml / toml / json loader produces). -/
+def PlainBlock (b : Block) : Prop := ∀ c ∈ b, c.isObj = false
+
+instance (b : Block) : Decidable (PlainBlock b) := inferInstanceAs (Decidable (∀ c ∈ b, c.isObj = false))
+
+theorem init_sep (defs : List Block) (cfg : Block) (hd : ∀ b ∈ defs, PlainBlock b) (hc : PlainBlock cfg) :
+    Sep (Heap.init defs cfg) := by
+  refine ⟨?_, ?_⟩
+  · intro g c hc
+    cases g with
+    | defn p =>
+      simp only [Heap.init] at hc
+      split at hc
+      · exact relocate_in _ _ _ c hc
+      · cases hc
+    | config => exact relocate_in _ _ _ c hc
+    | run r => cases hc
+  · intro g _ c hcm
+    cases g with
+    | defn p =>
+      simp only [Heap.init] at hcm
+      split at hcm
+      · rename_i b hb
+        exact isObj_relocate (hd b (List.mem_of_getElem? hb)) _ _ c hcm
+      · cases hcm
+    | config => exact isObj_relocate hc _ _ c hcm
+    | run r => cases hcm
 
 end Pypyr.C12
